@@ -4,7 +4,10 @@
 //! series-based auxiliary latitudes / meridian arcs, between the library and closed
 //! forms / Gauss-Legendre quadrature from `vcore::refmath`):
 //!
-//!  * tmerc (Engsager/Poder series) vs btmerc (Bowring closed form), |dlon| <= 3 deg
+//!  * tmerc (Engsager/Poder series) vs btmerc (Bowring closed form), |dlon| <= 3 deg, central
+//!    meridians anywhere incl. at / near / beyond the +-180 deg cut, every point under the raw
+//!    longitudes a caller may write for it (`REPS`: wrapped either way, a turn up / down, exactly
+//!    +-180) and under the longitudes the inverse routes themselves return
 //!  * `cart` operator vs `Ellipsoid::cartesian` / `Ellipsoid::geographic`
 //!  * latitude / curvature / geodesic / gravity operators vs the Ellipsoid trait methods
 //!  * axisswap vs adapt (pure signed permutations), unitconvert vs adapt (deg/gon <-> rad)
@@ -180,6 +183,114 @@ fn lon_deg_strategy() -> BoxedStrategy<f64> {
     .boxed()
 }
 
+/// Longitudes anywhere a caller may write them: the customary range, the cut at +-180 deg from
+/// both sides and exactly, and raw values up to one and a half turns outside the range
+fn lon_deg_wide_strategy() -> BoxedStrategy<f64> {
+    prop_oneof![
+        12 => lon_deg_strategy(),
+        2 => 180.0f64..540.0,
+        2 => -540.0f64..-180.0,
+        1 => (any::<bool>(), -1e-7f64..1e-7).prop_map(|(e, d)| if e { 180.0 + d } else { -180.0 + d }),
+        1 => prop_oneof![Just(181.0f64), Just(-183.0f64), Just(360.0f64), Just(-360.0f64), Just(540.0f64), Just(-540.0f64), Just(179.5f64), Just(-179.5f64)],
+    ]
+    .boxed()
+}
+
+// ---- raw longitudes under which one and the same meridian can be presented ----------------------
+
+/// The ways in which the longitude of a point `dlon` degrees from the central meridian `lon_0` is
+/// written down by a caller. All denote the same meridian; every route that takes a longitude must
+/// give the same result for each of them (to the rounding of the presentation).
+const REPS: [&str; 10] = [
+    "lon_0 + dlon as computed",
+    "wrapped into [-180, 180)",
+    "wrapped into (-180, 180]",
+    "wrapped into [0, 360)",
+    "one turn up (+360)",
+    "one turn down (-360)",
+    "exactly +180 where that meridian is within 3 deg of the central one (else as [-180, 180))",
+    "exactly -180 where that meridian is within 3 deg of the central one (else as (-180, 180])",
+    "two turns up (+720)",
+    "two turns down (-720)",
+];
+
+/// into [-180, 180)
+fn wrap180(x: f64) -> f64 {
+    x - 360.0 * ((x + 180.0) / 360.0).floor()
+}
+
+/// Raw longitude in degrees of the point `dlon` degrees (|dlon| <= 3) from the meridian `lon_0`,
+/// in the presentation `rep`
+fn raw_lon(lon_0: f64, dlon: f64, rep: u8) -> f64 {
+    let l = lon_0 + dlon;
+    let r = rep as usize % REPS.len();
+    match r {
+        0 => l,
+        1 => wrap180(l),
+        2 => -wrap180(-l),
+        3 => {
+            let w = wrap180(l);
+            if w < 0.0 {
+                w + 360.0
+            } else {
+                w
+            }
+        }
+        4 => l + 360.0,
+        5 => l - 360.0,
+        8 => l + 720.0,
+        9 => l - 720.0,
+        _ => {
+            // the antimeridian itself, under both of its names
+            let off = wrap180(180.0 - lon_0);
+            if off.abs() <= 3.0 {
+                if r == 6 {
+                    180.0
+                } else {
+                    -180.0
+                }
+            } else if r == 6 {
+                wrap180(l)
+            } else {
+                -wrap180(-l)
+            }
+        }
+    }
+}
+
+/// Bookkeeping for a raw longitude handed to a route with central meridian `lon_0` (degrees):
+/// which way (if any) the plain difference `lon - lon_0` leaves [-180, 180)
+fn note_wrap(rec: &mut Rec, lon: f64, lon_0: f64) -> i32 {
+    let d = lon - lon_0;
+    if lon.abs() == 180.0 {
+        rec.count("points_exactly_at_+-180", 1);
+    } else if lon.abs() > 180.0 {
+        rec.count("points_with_raw_longitude_outside_+-180", 1);
+    }
+    if d < -180.0 {
+        rec.count("points_with_lon-lon_0_below_-180", 1);
+        -1
+    } else if d >= 180.0 {
+        rec.count("points_with_lon-lon_0_at_or_above_+180", 1);
+        1
+    } else {
+        rec.count("points_with_lon-lon_0_in_range", 1);
+        0
+    }
+}
+
+fn lon_0_class(lon_0: f64) -> &'static str {
+    if lon_0.abs() > 180.0 {
+        "lon_0 outside [-180, 180]"
+    } else if lon_0.abs() == 180.0 {
+        "lon_0 = +-180"
+    } else if lon_0.abs() >= 177.0 {
+        "lon_0 within 3 deg of the antimeridian"
+    } else {
+        "lon_0 elsewhere"
+    }
+}
+
 // ---------------------------------------------------------------------------------
 // 1. tmerc vs btmerc
 // ---------------------------------------------------------------------------------
@@ -194,6 +305,9 @@ struct TmCase {
     y_0: F,
     /// (longitude offset from lon_0 in degrees, |.| <= 3; latitude in degrees)
     pts: Vec<[F; 2]>,
+    /// per point: index into REPS, the presentation of its raw longitude (missing = 0)
+    #[serde(default)]
+    reps: Vec<u8>,
 }
 
 const TM_TOL: f64 = 1.0e-3; // "sub-millimetre", ground metres: the level the property states (cap)
@@ -219,21 +333,50 @@ fn tm_defs(c: &TmCase, lat_0: f64) -> (String, String) {
     (format!("tmerc {tail}"), format!("btmerc {tail}"))
 }
 
-fn tm_strategy(with_lat_0: bool) -> BoxedStrategy<TmCase> {
+/// Central meridians at, near and beyond the +-180 deg cut
+fn lon_0_antimeridian_strategy() -> BoxedStrategy<f64> {
+    prop_oneof![
+        3 => 177.0f64..180.0,
+        3 => -180.0f64..-177.0,
+        2 => prop_oneof![Just(180.0f64), Just(-180.0f64), Just(177.0f64), Just(-177.0f64), Just(179.0f64), Just(-179.0f64), Just(179.999999f64), Just(-179.999999f64)],
+        // outside the customary range: the same meridians (and others) written with one or two extra turns
+        2 => prop_oneof![Just(181.0f64), Just(-183.0f64), Just(183.0f64), Just(-181.0f64), Just(360.0f64), Just(-360.0f64), Just(540.0f64), Just(-540.0f64), Just(537.0f64), Just(-537.0f64), Just(369.0f64)],
+        2 => prop_oneof![180.0f64..720.0, -720.0f64..-180.0],
+    ]
+    .boxed()
+}
+
+/// `antimeridian`: the section that concentrates on central meridians at / near / beyond +-180 deg
+/// and on all presentations of the raw longitudes; otherwise those classes take part with a small weight
+fn tm_strategy(with_lat_0: bool, antimeridian: bool) -> BoxedStrategy<TmCase> {
     let lat_0 = if with_lat_0 {
         prop_oneof![4 => -80.0f64..80.0, 1 => prop_oneof![Just(49.0f64), Just(-33.0), Just(0.5), Just(1e-3)]].boxed()
     } else {
         Just(0.0f64).boxed()
     };
-    let lon_0 = prop_oneof![2 => Just(0.0f64), 2 => (-30i32..=30).prop_map(|z| 6.0 * z as f64 + 3.0), 4 => -180.0f64..180.0];
+    let lon_0 = if antimeridian {
+        prop_oneof![12 => lon_0_antimeridian_strategy(), 1 => -180.0f64..180.0].boxed()
+    } else {
+        prop_oneof![2 => Just(0.0f64), 2 => (-30i32..=30).prop_map(|z| 6.0 * z as f64 + 3.0), 4 => -180.0f64..180.0, 2 => lon_0_antimeridian_strategy()].boxed()
+    };
     let k_0 = prop_oneof![2 => Just(1.0f64), 2 => Just(0.9996f64), 3 => 0.9f64..1.1];
     let x_0 = prop_oneof![2 => Just(0.0f64), 2 => Just(500_000.0f64), 2 => -1.0e7f64..1.0e7];
     let y_0 = prop_oneof![2 => Just(0.0f64), 1 => Just(10_000_000.0f64), 2 => -1.0e7f64..1.0e7];
     let dlon = prop_oneof![8 => -3.0f64..3.0, 1 => Just(0.0f64), 1 => prop_oneof![Just(3.0f64), Just(-3.0f64)], 1 => -1e-5f64..1e-5];
-    let pts = prop::collection::vec((dlon, lat_deg_strategy()).prop_map(|(a, b)| [F(a), F(b)]), 1..=48);
+    let rep = if antimeridian { (0u8..REPS.len() as u8).boxed() } else { prop_oneof![5 => Just(0u8), 4 => 0u8..REPS.len() as u8].boxed() };
+    let pts = prop::collection::vec((dlon, lat_deg_strategy(), rep), 1..=48);
     (ell_name(), lat_0, lon_0, k_0, x_0, y_0, pts)
-        .prop_map(|(ell, lat_0, lon_0, k_0, x_0, y_0, pts)| TmCase { ell, lat_0: F(lat_0), lon_0: F(lon_0), k_0: F(k_0), x_0: F(x_0), y_0: F(y_0), pts })
+        .prop_map(|(ell, lat_0, lon_0, k_0, x_0, y_0, raw)| {
+            let pts = raw.iter().map(|(a, b, _)| [F(*a), F(*b)]).collect();
+            let reps = raw.iter().map(|(_, _, r)| *r).collect();
+            TmCase { ell, lat_0: F(lat_0), lon_0: F(lon_0), k_0: F(k_0), x_0: F(x_0), y_0: F(y_0), pts, reps }
+        })
         .boxed()
+}
+
+/// Ground distance of the forward results of the two routes at one point, per unit of k_0
+fn tm_fwd_dist(t: &Coor4D, b: &Coor4D, k_0: f64) -> f64 {
+    (t[0] - b[0]).hypot(t[1] - b[1]) / k_0
 }
 
 fn tm_check(c: &TmCase, rec: &mut Rec) -> CaseResult {
@@ -244,11 +387,29 @@ fn tm_check(c: &TmCase, rec: &mut Rec) -> CaseResult {
     // commit a7dda43); a relapse is reported under its own key
     let known_class = lat_0 != 0.0;
     let lon_0 = c.lon_0.0.to_radians();
-    let geo: Vec<Coor4D> = c.pts.iter().map(|p| Coor4D([lon_0 + p[0].0.to_radians(), p[1].0.to_radians(), 0.0, 0.0])).collect();
+    // the raw longitude of each point in its presentation (REPS); all presentations denote the
+    // same meridian, at most 3 deg from the central one
+    let rep_of = |i: usize| c.reps.get(i).copied().unwrap_or(0) % REPS.len() as u8;
+    let raw_deg: Vec<f64> = c.pts.iter().enumerate().map(|(i, p)| raw_lon(c.lon_0.0, p[0].0, rep_of(i))).collect();
+    let geo: Vec<Coor4D> = c
+        .pts
+        .iter()
+        .enumerate()
+        .map(|(i, p)| Coor4D([if rep_of(i) == 0 { lon_0 + p[0].0.to_radians() } else { raw_deg[i].to_radians() }, p[1].0.to_radians(), 0.0, 0.0]))
+        .collect();
     let n = geo.len();
 
     // coverage bookkeeping first, so that cases ending in a listed finding are still described
     rec.class(ell_class(&c.ell));
+    rec.class(lon_0_class(c.lon_0.0));
+    let mut wrap_dir = vec![0i32; n];
+    for i in 0..n {
+        wrap_dir[i] = note_wrap(rec, raw_deg[i], c.lon_0.0);
+        rec.count(&format!("points presented as: {}", REPS[rep_of(i) as usize]), 1);
+        if c.pts[i][1].0.abs() == 90.0 {
+            rec.count("points_at_a_pole", 1);
+        }
+    }
     for p in &c.pts {
         let (dl, la) = (p[0].0, p[1].0);
         if dl != 0.0 && la != 0.0 && la.abs() < 90.0 {
@@ -270,8 +431,8 @@ fn tm_check(c: &TmCase, rec: &mut Rec) -> CaseResult {
         let tol = tm_tol(&el, true);
         if !(d <= tol) {
             let msg = format!(
-                "forward: '{tdef}' and '{bdef}' at (lon, lat) = ({:?}, {:?}) rad [dlon {} deg, lat {} deg]: tmerc ({:?}, {:?}), btmerc ({:?}, {:?}), distance {d:.3e} m > {tol:.3e} m",
-                geo[i][0], geo[i][1], c.pts[i][0].0, c.pts[i][1].0, tf[i][0], tf[i][1], bf[i][0], bf[i][1]
+                "forward: '{tdef}' and '{bdef}' at (lon, lat) = ({:?}, {:?}) rad [raw longitude {:?} deg = {} deg from the central meridian, {}; lat {} deg]: tmerc ({:?}, {:?}), btmerc ({:?}, {:?}), distance {d:.3e} m > {tol:.3e} m",
+                geo[i][0], geo[i][1], raw_deg[i], wrap180(raw_deg[i] - c.lon_0.0), REPS[rep_of(i) as usize], c.pts[i][1].0, tf[i][0], tf[i][1], bf[i][0], bf[i][1]
             );
             if known_class {
                 // signature of the registered defect: lat_0 is added to the latitude (instead of
@@ -283,6 +444,9 @@ fn tm_check(c: &TmCase, rec: &mut Rec) -> CaseResult {
                 if sig < 1e-6 {
                     vfail!("btmerc-lat_0-added-to-latitude", "{msg}\n(btmerc lat_0=L at latitude B equals btmerc lat_0=0 at latitude B+L to {sig:.2e} m)");
                 }
+            }
+            if wrap_dir[i] != 0 {
+                vfail!("tmerc-btmerc-fwd-disagree-wrapped-longitude", "{msg}\n(the plain difference lon - lon_0 lies {} [-180, 180) deg: the routes must treat the longitude modulo a full turn)", if wrap_dir[i] < 0 { "below" } else { "above" });
             }
             vfail!("tmerc-btmerc-fwd-disagree", "{msg}");
         }
@@ -319,6 +483,50 @@ fn tm_check(c: &TmCase, rec: &mut Rec) -> CaseResult {
             }
             vfail!("tmerc-btmerc-inv-disagree", "{msg}");
         }
+    }
+
+    // ---- forward once more, at the longitudes the two inverse routes hand back (tmerc: wrapped
+    // into [-pi, pi), btmerc: lon_0 + offset as it comes): the presentations the library itself
+    // produces, e.g. for feeding the next zone's projection
+    let strip = 3.001f64.to_radians();
+    for (who, back) in [("tmerc", &ti), ("btmerc", &bi)] {
+        let (tf2, tn2) = apply_def(&tdef, true, back)?;
+        let (bf2, bn2) = apply_def(&bdef, true, back)?;
+        let tol = tm_tol(&el, true);
+        let mut inside = 0usize;
+        for i in 0..n {
+            // Near a pole the 1 mm lattice moves the longitude by any amount: outside the strip the
+            // property claims nothing
+            if !(wrap_pi(back[i][0] - lon_0).abs() <= strip) {
+                rec.count("inverse_outputs_outside_the_strip_(near_pole)_not_reprojected", 1);
+                continue;
+            }
+            inside += 1;
+            let dir = note_wrap(rec, back[i][0].to_degrees(), c.lon_0.0);
+            let d = tm_fwd_dist(&tf2[i], &bf2[i], c.k_0.0);
+            rec.metric("worst_fwd_m_at_inverse_outputs", d);
+            if !(d <= tol) {
+                let msg = format!(
+                    "forward at a longitude returned by the inverse of {who}: '{tdef}' and '{bdef}' at (lon, lat) = ({:?}, {:?}) rad [= the {who} inverse of (E, N) = ({:?}, {:?})]: tmerc ({:?}, {:?}), btmerc ({:?}, {:?}), distance {d:.3e} m > {tol:.3e} m",
+                    back[i][0], back[i][1], prj[i][0], prj[i][1], tf2[i][0], tf2[i][1], bf2[i][0], bf2[i][1]
+                );
+                if known_class {
+                    let (_, b0def) = tm_defs(c, 0.0);
+                    let shifted = [Coor4D([back[i][0], back[i][1] + lat_0.to_radians(), 0.0, 0.0])];
+                    let (b0, _) = apply_def(&b0def, true, &shifted)?;
+                    let sig = (b0[0][0] - bf2[i][0]).hypot(b0[0][1] - bf2[i][1]);
+                    if sig < 1e-6 {
+                        vfail!("btmerc-lat_0-added-to-latitude", "{msg}\n(btmerc lat_0=L at latitude B equals btmerc lat_0=0 at latitude B+L to {sig:.2e} m)");
+                    }
+                }
+                if dir != 0 {
+                    vfail!("tmerc-btmerc-fwd-disagree-wrapped-longitude", "{msg}\n(the plain difference lon - lon_0 lies outside [-180, 180) deg)");
+                }
+                vfail!("tmerc-btmerc-fwd-disagree", "{msg}");
+            }
+        }
+        let _ = (tn2, bn2, inside);
+        rec.count("comparisons", inside as u64);
     }
 
     rec.count("comparisons", 2 * n as u64);
@@ -398,8 +606,12 @@ fn zone_check(c: &ZoneCase, rec: &mut Rec) -> CaseResult {
         Ok(x) => x,
         Err(e) => vfail!("routes-disagree-on-validity", "'{}' is refused ({e}) but '{}' is accepted", defs[3], defs[1]),
     };
-    let geo: Vec<Coor4D> = c.pts.iter().map(|p| Coor4D([(lon_0 + p[0].0).to_radians(), p[1].0.to_radians(), 0.0, 0.0])).collect();
+    // every point in every presentation of its raw longitude (REPS; index = point * REPS.len() + presentation)
+    let nrep = REPS.len();
+    let raw_deg: Vec<f64> = c.pts.iter().flat_map(|p| (0..nrep).map(move |r| raw_lon(lon_0, p[0].0, r as u8))).collect();
+    let geo: Vec<Coor4D> = raw_deg.iter().enumerate().map(|(j, l)| Coor4D([l.to_radians(), c.pts[j / nrep][1].0.to_radians(), 0.0, 0.0])).collect();
     let n = geo.len();
+    let wrap_dir: Vec<i32> = raw_deg.iter().map(|l| note_wrap(rec, *l, lon_0)).collect();
     let run4 = |fwd: bool, input: &[Coor4D]| -> Result<[(Vec<Coor4D>, usize); 4], Failure> {
         let mut out: Vec<(Vec<Coor4D>, usize)> = vec![];
         for (ctx, op, def) in [(&uctx, uop, &defs[0]), (&bctx, bop, &defs[1]), (&tctx, top, &defs[2]), (&xctx, xop, &defs[3])] {
@@ -418,8 +630,9 @@ fn zone_check(c: &ZoneCase, rec: &mut Rec) -> CaseResult {
     for i in 0..n {
         let d = (f[0].0[i][0] - f[1].0[i][0]).hypot(f[0].0[i][1] - f[1].0[i][1]) / 0.9996;
         rec.metric("worst_fwd_m", d);
-        vensure!(d <= tol, "utm-butm-fwd-disagree", "'{}' and '{}' Fwd at (lon, lat) = ({:?}, {:?}) rad: ({:?}, {:?}) vs ({:?}, {:?}), {d:.3e} m apart (> {tol:.3e})",
-            defs[0], defs[1], geo[i][0], geo[i][1], f[0].0[i][0], f[0].0[i][1], f[1].0[i][0], f[1].0[i][1]);
+        vensure!(d <= tol, if wrap_dir[i] != 0 { "utm-butm-fwd-disagree-wrapped-longitude" } else { "utm-butm-fwd-disagree" },
+            "'{}' and '{}' Fwd at (lon, lat) = ({:?}, {:?}) rad [raw longitude {:?} deg, central meridian {lon_0} deg, {}]: ({:?}, {:?}) vs ({:?}, {:?}), {d:.3e} m apart (> {tol:.3e})",
+            defs[0], defs[1], geo[i][0], geo[i][1], raw_deg[i], REPS[i % nrep], f[0].0[i][0], f[0].0[i][1], f[1].0[i][0], f[1].0[i][1]);
         // utm is tmerc, butm is btmerc, with the zone's parameters
         for (a, b) in [(0usize, 2usize), (1, 3)] {
             let d = (f[a].0[i][0] - f[b].0[i][0]).hypot(f[a].0[i][1] - f[b].0[i][1]);
@@ -450,7 +663,30 @@ fn zone_check(c: &ZoneCase, rec: &mut Rec) -> CaseResult {
                 defs[x], defs[y], prj[i][0], prj[i][1], b[x].0[i][0], b[x].0[i][1], b[y].0[i][0], b[y].0[i][1]);
         }
     }
+    // forward once more, at the longitudes the inverse routes hand back (utm: wrapped into
+    // [-pi, pi), butm: lon_0 + offset as it comes)
+    let tol = tm_tol(&el, true);
+    let strip = 3.001f64.to_radians();
+    for (who, k) in [("utm", 0usize), ("butm", 1usize)] {
+        let back = &b[k].0;
+        let f2 = run4(true, back)?;
+        for i in 0..n {
+            if !(wrap_pi(back[i][0] - lon_0.to_radians()).abs() <= strip) {
+                rec.count("inverse_outputs_outside_the_strip_(near_pole)_not_reprojected", 1);
+                continue;
+            }
+            let dir = note_wrap(rec, back[i][0].to_degrees(), lon_0);
+            let d = (f2[0].0[i][0] - f2[1].0[i][0]).hypot(f2[0].0[i][1] - f2[1].0[i][1]) / 0.9996;
+            rec.metric("worst_fwd_m_at_inverse_outputs", d);
+            vensure!(d <= tol, if dir != 0 { "utm-butm-fwd-disagree-wrapped-longitude" } else { "utm-butm-fwd-disagree" },
+                "'{}' and '{}' Fwd at the longitude returned by '{}' Inv, (lon, lat) = ({:?}, {:?}) rad [central meridian {lon_0} deg]: ({:?}, {:?}) vs ({:?}, {:?}), {d:.3e} m apart (> {tol:.3e})",
+                defs[0], defs[1], defs[k], back[i][0], back[i][1], f2[0].0[i][0], f2[0].0[i][1], f2[1].0[i][0], f2[1].0[i][1]);
+            rec.count("comparisons", 1);
+        }
+        let _ = who;
+    }
     rec.class(&format!("zone {:02}{}", c.zone, if c.south { " south" } else { "" }));
+    rec.class(lon_0_class(lon_0));
     rec.count("comparisons", 6 * n as u64);
     for p in &c.pts {
         if p[0].0 != 0.0 && p[1].0 != 0.0 {
@@ -493,9 +729,9 @@ fn cart_strategy() -> BoxedStrategy<CartCase> {
     // heights -10 km .. 100 km on an Earth sized ellipsoid, scaled with a for the unit sphere
     let eta = prop_oneof![3 => Just(0.0f64), 6 => -0.00157f64..0.0157, 1 => Just(0.0157f64), 1 => Just(-0.00157f64)];
     let t = prop_oneof![Just(0.0f64), 1990.0f64..2030.0, Just(f64::NAN)];
-    let pts = prop::collection::vec((lon_deg_strategy(), lat_deg_strategy(), eta.clone(), t).prop_map(|(a, b, c, d)| p4(a, b, c, d)), 1..=48);
+    let pts = prop::collection::vec((lon_deg_wide_strategy(), lat_deg_strategy(), eta.clone(), t).prop_map(|(a, b, c, d)| p4(a, b, c, d)), 1..=48);
     let near = prop::collection::vec(
-        ((-16.0f64..-2.5), any::<bool>(), lon_deg_strategy(), eta).prop_map(|(u, south, lon, eta)| {
+        ((-16.0f64..-2.5), any::<bool>(), lon_deg_wide_strategy(), eta).prop_map(|(u, south, lon, eta)| {
             let colat = 10f64.powf(u);
             [F(if south { -colat } else { colat }), F(lon), F(eta)]
         }),
@@ -562,6 +798,18 @@ fn cart_check(c: &CartCase, rec: &mut Rec) -> CaseResult {
     rec.count("near_axis_points", c.near_axis.len() as u64);
     for p in &c.pts {
         let (lo, la) = (p[0].0, p[1].0);
+        if lo.abs() == 180.0 {
+            rec.count("points_exactly_at_+-180", 1);
+        } else if lo > 180.0 {
+            rec.count("points_with_raw_longitude_above_+180", 1);
+        } else if lo < -180.0 {
+            rec.count("points_with_raw_longitude_below_-180", 1);
+        } else if lo.abs() > 179.9 {
+            rec.count("points_within_0.1_deg_of_the_antimeridian", 1);
+        }
+        if la.abs() == 90.0 {
+            rec.count("points_at_a_pole", 1);
+        }
         if la != 0.0 && la.abs() < 90.0 && (lo / 90.0).fract() != 0.0 {
             rec.nontrivial(&("cart", &c.ell, cell(lo), cell(la)));
         }
@@ -599,7 +847,7 @@ fn wrap_strategy() -> BoxedStrategy<WrapCase> {
     // distance as a fraction of the semimajor axis: 1 m .. 19 000 km on an Earth sized ellipsoid
     let dist = prop_oneof![5 => 1.6e-7f64..2.98, 2 => 1.6e-7f64..1.6e-3, 1 => Just(0.0f64)];
     let height = prop_oneof![2 => Just(0.0f64), 5 => -500.0f64..9000.0];
-    let pts = prop::collection::vec((lat_deg_strategy(), lon_deg_strategy(), azi, dist, height).prop_map(|(la, lo, az, s, h)| (la, lo, az, s, h)), 1..=32);
+    let pts = prop::collection::vec((lat_deg_strategy(), lon_deg_wide_strategy(), azi, dist, height).prop_map(|(la, lo, az, s, h)| (la, lo, az, s, h)), 1..=32);
     (ell_name(), prop::bool::weighted(0.9), 0u8..4, any::<u16>(), any::<bool>(), route_strategy(), pts)
         .prop_map(|(ell, explicit, family, k, flag, route, raw)| {
             let explicit = explicit || ell != "GRS80";
@@ -660,6 +908,12 @@ fn wrap_check(c: &WrapCase, rec: &mut Rec) -> CaseResult {
                 if phi != 0.0 && phi.abs() < FRAC_PI_2 {
                     rec.nontrivial(&("latitude", kind, &c.ell, cell(c.pts[i][1].0)));
                 }
+                if c.pts[i][1].0.abs() == 90.0 {
+                    rec.count("latitude_points_at_a_pole", 1);
+                }
+                if c.pts[i][0].0.abs() >= 180.0 {
+                    rec.count("latitude_points_with_longitude_at_or_beyond_+-180", 1);
+                }
             }
             rec.class(&format!("latitude {kind}"));
         }
@@ -687,6 +941,9 @@ fn wrap_check(c: &WrapCase, rec: &mut Rec) -> CaseResult {
                 if input[i][0] != 0.0 && input[i][0].abs() < 90.0 {
                     rec.nontrivial(&("curvature", kind, &c.ell, cell(input[i][0])));
                 }
+                if input[i][0].abs() == 90.0 {
+                    rec.count("curvature_points_at_a_pole", 1);
+                }
             }
             rec.class(&format!("curvature {kind}"));
         }
@@ -707,7 +964,27 @@ fn wrap_check(c: &WrapCase, rec: &mut Rec) -> CaseResult {
                     cmp_ulps(rec, "worst_ulps_geodesic", "geodesic-op-vs-method", &format!("'{def}' Fwd on {} element {k}", fmt_c4(a)), f[i][k], expect[k])?;
                 }
                 // inverse problem between origin and the destination just computed
-                inv_in.push(if expect[0].is_nan() { Coor4D([a[0], a[1], -a[0] * 0.5, a[1] + 33.0]) } else { Coor4D([a[0], a[1], expect[0], expect[1]]) });
+                // the second point's longitude as returned, wrapped into [-180, 180), or a turn up / down:
+                // the pair then straddles the +-180 cut with raw longitudes of either sign
+                let (la2, lo2) = if expect[0].is_nan() { (-a[0] * 0.5, a[1] + 33.0) } else { (expect[0], expect[1]) };
+                let lo2 = match i % 4 {
+                    0 => lo2,
+                    1 => wrap180(lo2),
+                    2 => lo2 + 360.0,
+                    _ => lo2 - 360.0,
+                };
+                if (lo2 - a[1]).abs() > 180.0 {
+                    rec.count("geodesic_inverse_pairs_with_raw_longitude_difference_beyond_180", 1);
+                }
+                if a[1].abs() > 180.0 {
+                    rec.count("geodesic_origins_with_raw_longitude_outside_+-180", 1);
+                } else if a[1].abs() == 180.0 {
+                    rec.count("geodesic_origins_exactly_at_+-180", 1);
+                }
+                if a[0].abs() == 90.0 {
+                    rec.count("geodesic_origins_at_a_pole", 1);
+                }
+                inv_in.push(Coor4D([a[0], a[1], la2, lo2]));
             }
             let (b, _) = apply_routed(&rt, false, &inv_in)?;
             for i in 0..n {
@@ -757,6 +1034,9 @@ fn wrap_check(c: &WrapCase, rec: &mut Rec) -> CaseResult {
                 cmp_ulps(rec, "worst_ulps_gravity", "gravity-op-vs-method", &format!("'{def}' at (lat deg, h) = ({:?}, {:?})", input[i][0], h), f[i][0], expect)?;
                 if input[i][0] != 0.0 && input[i][0].abs() < 90.0 {
                     rec.nontrivial(&("gravity", kind, zero_height, &c.ell, cell(input[i][0])));
+                }
+                if input[i][0].abs() == 90.0 {
+                    rec.count("gravity_points_at_a_pole", 1);
                 }
             }
             rec.class(&format!("gravity {}", if kind.is_empty() { "(default)" } else { kind }));
@@ -1934,6 +2214,7 @@ fn main() {
     let names = ells().clone();
     assert!(names.len() == 47, "the ellipsoid hook lists {} names", names.len());
 
+    run.assume("longitudes are angles: a raw longitude and the same value plus or minus whole turns denote the same meridian, so 'within three degrees of the central meridian' is meant modulo 360 deg, for central meridians and points written anywhere in +-1443 deg (both routes accept such values and agree on them on the unchanged tree); inverse longitudes are compared modulo a full turn (tmerc wraps its output, btmerc does not)");
     run.assume("tmerc/btmerc: compared for |lon - lon_0| <= 3 deg, all latitudes; lat_0 = 0 in the main section, lat_0 != 0 (the btmerc defect fixed by a7dda43) in its own section; inverse inputs are tmerc outputs rounded to 1 mm; tolerance = min(1 mm, calibrated Bowring truncation model: 1.5 a n^4 forward, 2.5e-4 a e'^6 inverse, + 2 um)");
     run.assume("cart: heights -10 km .. 100 km on an Earth sized ellipsoid, scaled with the semimajor axis (so that the unit sphere is meaningful); metre tolerances refer to ground distance; inverse tolerance = min(1 mm, 1.5e-4 a e'^6 + 1 um) (Bowring's non-iterative formula is the weaker route)");
     run.assume("geodesic operator: forward output layout (lat2, lon2, lat1, lon1) in degrees and inverse layout as in src/inner_op/geodesic.rs and its unit test; Rumination 002 describes the forward output differently (documentation slip, not asserted)");
@@ -1961,9 +2242,9 @@ fn main() {
     let n = run.scale(30_000, 700_000);
     run.section(
         "tmerc-btmerc",
-        "47 ellipsoids x (lon_0, k_0, x_0, y_0) x up to 48 points with |dlon| <= 3 deg, any latitude (classes: equator, poles, central meridian, strip edge), lat_0 = 0; forward and inverse compared on the ground at 1 mm; non-trivial = off the central meridian and the equator; distinct by (ellipsoid, 0.25 deg cell)",
+        "47 ellipsoids x (lon_0, k_0, x_0, y_0) x up to 48 points with |dlon| <= 3 deg, any latitude (classes: equator, poles, central meridian, strip edge), lat_0 = 0; lon_0 mostly inside (-180, 180), 1 in 5 at / near / beyond the +-180 cut; 4 in 9 points presented under another raw longitude of the same meridian (wrapped, a turn up / down); forward and inverse compared on the ground at 1 mm, forward also at the longitudes the inverse routes return; non-trivial = off the central meridian and the equator; distinct by (ellipsoid, 0.25 deg cell)",
         n,
-        || tm_strategy(false),
+        || tm_strategy(false, false),
         tm_check,
     );
     {
@@ -1972,7 +2253,7 @@ fn main() {
         let seed = run.seed;
         run.enumerate(
             "utm-butm-zones",
-            "zones 0..=61 x north/south x {no ellps, each of 47 ellipsoids}: 'utm' vs 'butm' vs the explicit tmerc / btmerc with lon_0 = 6 zone - 183, k_0 = 0.9996, x_0 = 500000, y_0 = 0 | 1e7, on 16 points of the zone (edges at +-3 deg incl. the antimeridian, central meridian, equator, seeded points); the routes must agree on whether the definition exists (1..60 accepted, 0 and 61 refused by both), utm/butm within the calibrated sub-millimetre tolerance both directions (longitudes modulo 2 pi), zone form vs explicit form within 1e-9 m",
+            "zones 0..=61 x north/south x {no ellps, each of 47 ellipsoids}: 'utm' vs 'butm' vs the explicit tmerc / btmerc with lon_0 = 6 zone - 183, k_0 = 0.9996, x_0 = 500000, y_0 = 0 | 1e7, on 16 points of the zone (edges at +-3 deg incl. the antimeridian, central meridian, equator, seeded points), each under all 10 presentations of its raw longitude (as computed, wrapped into [-180,180) / (-180,180] / [0,360), one or two turns up / down, exactly +180 / -180 in zones 1 and 60), forward also at the longitudes the inverse routes return; the routes must agree on whether the definition exists (1..60 accepted, 0 and 61 refused by both), utm/butm within the calibrated sub-millimetre tolerance both directions (longitudes modulo 2 pi), zone form vs explicit form within 1e-9 m",
             62 * 2 * ne,
             move |i| {
                 let zone = (i % 62) as u32;
@@ -1988,13 +2269,21 @@ fn main() {
         "tmerc-btmerc-lat_0",
         "as tmerc-btmerc but with a latitude of origin lat_0 != 0 (|lat_0| <= 80 deg): both routes must shift the northing by k_0 times the meridian arc of lat_0",
         n,
-        || tm_strategy(true),
+        || tm_strategy(true, false),
+        tm_check,
+    );
+    let n = run.scale(12_000, 250_000);
+    run.section(
+        "tmerc-btmerc-antimeridian",
+        "as tmerc-btmerc (lat_0 = 0), but the central meridian at, within 3 deg of, or beyond the +-180 deg cut (lon_0 = 177..180, -180..-177, 181, -183, 360, 540, 180..720, -720..-180), each point presented under one of 10 raw longitudes of the same meridian (as computed, wrapped into [-180,180) / (-180,180] / [0,360), one or two turns up or down, exactly +180 / -180), so that lon - lon_0 leaves [-180,180) on either side; forward compared at 1 mm for every presentation, inverse modulo a full turn, and forward again at the longitudes the two inverse routes hand back",
+        n,
+        || tm_strategy(false, true),
         tm_check,
     );
     let n = run.scale(30_000, 700_000);
     run.section(
         "cart-vs-ellipsoid",
-        "47 ellipsoids x up to 48 generic points (lon, lat, h in -10..100 km scaled by a, t incl. NaN) + up to 8 points 1e-16..3e-3 rad from the axis; forward bit-identical with Ellipsoid::cartesian, inverse within 1 mm of Ellipsoid::geographic; non-trivial = off equator, poles and the 0/90/180 meridians",
+        "47 ellipsoids x up to 48 generic points (lon in [-180, 180], exactly and within 1e-7 deg of +-180, and raw values out to +-540 deg; lat incl. the poles; h in -10..100 km scaled by a, t incl. NaN) + up to 8 points 1e-16..3e-3 rad from the axis; forward bit-identical with Ellipsoid::cartesian, inverse within 1 mm of Ellipsoid::geographic; non-trivial = off equator, poles and the 0/90/180 meridians",
         n,
         cart_strategy,
         cart_check,
@@ -2002,7 +2291,7 @@ fn main() {
     let n = run.scale(30_000, 700_000);
     run.section(
         "operator-vs-method",
-        "latitude (6 kinds, fwd+inv), curvature (5 kinds), geodesic (plain/reversible, direct+inverse), gravity (5 formulas + default, with/without zero-height) operators on 47 ellipsoids (and the implicit default) vs the Ellipsoid trait methods after the unit/order conversions of the operator; <= 4 ulp",
+        "latitude (6 kinds, fwd+inv), curvature (5 kinds), geodesic (plain/reversible, direct+inverse), gravity (5 formulas + default, with/without zero-height) operators on 47 ellipsoids (and the implicit default) vs the Ellipsoid trait methods after the unit/order conversions of the operator; latitudes incl. the poles, raw longitudes out to +-540 deg and at +-180, geodesic inverse pairs with the second longitude as returned / wrapped / a turn up / down (straddling the +-180 cut with either sign); <= 4 ulp",
         n,
         wrap_strategy,
         wrap_check,
